@@ -161,3 +161,43 @@ Theorem autofail_disabled_never_fails : forall cfg now sc rc p, cc_af_enabled cf
 Proof. intros cfg now sc rc p H. unfold fail_trigger. rewrite H. reflexivity. Qed.
 Theorem autopause_disabled_never_pauses : forall cfg now p, cc_ap_enabled cfg = false -> pause_trigger cfg now p = false.
 Proof. intros cfg now p H. unfold pause_trigger. rewrite H. reflexivity. Qed.
+
+(** ** the restart record (the PodRestarting condition) only moves forward *)
+Lemma ct_restart_ne_failed : CT_PodRestarting <> CT_CanaryFailed. Proof. discriminate. Qed.
+Lemma ct_restart_ne_paused : CT_PodRestarting <> CT_CanaryPaused. Proof. discriminate. Qed.
+Lemma ct_restart_ne_cannot : CT_PodRestarting <> CT_PodCannotStart. Proof. discriminate. Qed.
+
+Theorem restart_record_monotone : forall oc unpaused now st0 f0 p0 r0 check l conds b,
+  canary_evaluate oc unpaused now st0 f0 p0 r0 check = Ok (l, conds) ->
+  get_cond (rs_conds st0) CT_PodRestarting = Some b ->
+  exists a, get_cond conds CT_PodRestarting = Some a /\
+            c_update b <= c_update a /\ (c_status b = CTrue -> c_trans a = c_trans b).
+Proof.
+  intros oc unpaused now st0 f0 p0 r0 check l conds b H Hb. unfold canary_evaluate in H.
+  destruct oc as [c|]; [|injection H as _ <-; exists b; split; [exact Hb|]; split; [lia | reflexivity]].
+  destruct (canary_cfg_of (Some c)) as [cfg|]; [|discriminate].
+  assert (Hgen : forall l' conds',
+    conds' = update_cond
+      (if negb (is_zero_time (cl_new_restart l')) &&
+          tafter (cl_new_restart l') (match get_cond (rs_conds st0) CT_PodRestarting with Some c0 => c_update c0 | None => zero_time end)
+       then update_cond (update_cond (update_cond (rs_conds st0) now CT_CanaryFailed (bool_to_cond (cl_failed l')) (cl_failed_reason l') no_name false true)
+                           now CT_CanaryPaused (bool_to_cond (cl_paused l')) (cl_paused_reason l') no_name false true)
+              (cl_new_restart l') CT_PodRestarting CTrue (cl_cs_reason l') M_OTHER false true
+       else update_cond (update_cond (rs_conds st0) now CT_CanaryFailed (bool_to_cond (cl_failed l')) (cl_failed_reason l') no_name false true)
+              now CT_CanaryPaused (bool_to_cond (cl_paused l')) (cl_paused_reason l') no_name false true)
+      now CT_PodCannotStart (bool_to_cond (cl_cannot_start l')) (cl_cs_reason l')
+      (if N.eqb (cl_cs_reason l') R_EMPTY then M_EMPTY else M_OTHER) false true ->
+    exists a, get_cond conds' CT_PodRestarting = Some a /\ c_update b <= c_update a /\ (c_status b = CTrue -> c_trans a = c_trans b)).
+  { intros l' conds' ->. rewrite get_cond_update_other by exact ct_restart_ne_cannot.
+    rewrite Hb.
+    assert (Hbase : get_cond (update_cond (update_cond (rs_conds st0) now CT_CanaryFailed (bool_to_cond (cl_failed l')) (cl_failed_reason l') no_name false true)
+                                now CT_CanaryPaused (bool_to_cond (cl_paused l')) (cl_paused_reason l') no_name false true) CT_PodRestarting = Some b).
+    { rewrite get_cond_update_other by exact ct_restart_ne_paused. rewrite get_cond_update_other by exact ct_restart_ne_failed. exact Hb. }
+    destruct (negb (is_zero_time (cl_new_restart l')) && tafter (cl_new_restart l') (c_update b)) eqn:E.
+    - apply andb_true_iff in E. destruct E as [_ E]. unfold tafter in E. apply Z.gtb_lt in E.
+      unfold update_cond at 1. rewrite Hbase.
+      eexists. split; [apply get_update_first; [exact Hbase | reflexivity]|]. cbn [c_update c_trans c_status].
+      rewrite orb_true_r. split; [lia|]. intros Hs. rewrite Hs. cbn. reflexivity.
+    - exists b. split; [exact Hbase|]. split; [lia | reflexivity]. }
+  destruct (unpaused && negb f0); apply bind_ok' in H; destruct H as [l' [_ H]]; injection H as _ <-; apply (Hgen l'); reflexivity.
+Qed.
